@@ -10,7 +10,8 @@ import numpy as np
 
 from vf import common
 
-OPS = ['reshuffle', 'local', 'onetime', 'apply', 'apply_reshuffle', 'map', 'slice', 'batch', 'concat', 'filter', 'catch', 'tile2']
+OPS = ['reshuffle', 'local', 'onetime', 'apply', 'apply_reshuffle', 'map', 'slice', 'batch', 'concat', 'filter', 'catch', 'tile2',
+       'plain_first', 'plain_last', 'intersperse_plain']
 RANDOM = {'reshuffle', 'local', 'onetime', 'apply', 'apply_reshuffle'}
 EPOCHS = 3
 
@@ -82,6 +83,11 @@ def build(prog, seed, kind, n=5):
                 ds = ds.concatenate(ds.map(add1))
             elif op == 'filter':
                 ds = ds.filter(keep)
+            elif op in ('plain_first', 'plain_last', 'intersperse_plain'):
+                # a deterministic dataset next to the random one: the combination is as random as its random input
+                plain = lazy_dataset.new({f'p{j}_{i}': 100 * (j + 1) + i for i in range(3)})
+                ds = plain.concatenate(ds) if op == 'plain_first' else \
+                    ds.concatenate(plain) if op == 'plain_last' else ds.intersperse(plain)
         except Exception:       # noqa: BLE001  (e.g. slicing a non-indexable stage: not a pipeline)
             return None
     return ds
